@@ -184,7 +184,7 @@ type binaryReader struct {
 
 func (b *binaryReader) uvarint() int {
 	x, n := binary.Uvarint(b.b)
-	if n < 0 {
+	if n <= 0 {
 		b.b = nil
 		b.err = errors.New("malformed RepoBranches")
 		return 0
